@@ -80,6 +80,37 @@ fn plain_case<K: Eq + 'static, const N: usize>(prop: &str, tname: &str, layout: 
     }
     n
 }
+/// Keys with an UNSIZED borrowed form whose `==` equates values of different byte length: `PathBuf` looked up
+/// by `&Path` ("k3/" == "k3", "k3//x" == "k3/x").  Stored keys are written one way, requested keys the other.
+fn path_case<const N: usize>(prop: &str, layout: &[u32], universe: &[u32], unchecked: bool) -> u64 {
+    use std::path::{Path, PathBuf};
+    let stored = |c: u32| PathBuf::from(format!("dir{}/x", c));
+    let asked = |c: u32| format!("dir{}//x/", c);
+    let mut m: Map<PathBuf, u32, N> = Map::new();
+    for c in layout {
+        m.insert(stored(*c), 1000 + *c);
+    }
+    let mut n = 0u64;
+    for a in universe {
+        for b in universe {
+            if a == b {
+                continue;
+            }
+            let (sa, sb) = (asked(*a), asked(*b));
+            let (pa, pb) = (Path::new(&sa), Path::new(&sb));
+            let want = [m.get_mut(pa).map(|x| (x as *mut u32 as usize, *x)), m.get_mut(pb).map(|x| (x as *mut u32 as usize, *x))];
+            let got: [Option<(usize, u32)>; 2] = {
+                let r = if unchecked { unsafe { m.get_disjoint_unchecked_mut([pa, pb]) } } else { m.get_disjoint_mut([pa, pb]) };
+                [r[0].as_ref().map(|x| (*x as *const u32 as usize, **x)), r[1].as_ref().map(|x| (*x as *const u32 as usize, **x))]
+            };
+            n += 1;
+            if got != want {
+                v(prop, "position-vs-get_mut(unsized borrowed form)", format!("Map<PathBuf,u32,{}> state={:?}: paths {:?} and {:?} (equal to stored keys, written differently) give {:x?}; get_mut gives {:x?}", N, layout, sa, sb, got, want));
+            }
+        }
+    }
+    n
+}
 static PLAIN_CELLS: [[u32; 16]; 3] = {
     let mut c = [[0u32; 16]; 3];
     let mut i = 0;
@@ -289,6 +320,7 @@ impl<'a> Dj<'a> {
                 n += plain_case::<Word, N>(prop, "Word(4 bytes)", &layout, &keys, &|c, t| Word::new(c, t), unchecked);
                 n += plain_case::<Odd3, N>(prop, "Odd3(3 bytes)", &layout, &keys, &|c, t| Odd3::new(c, t), unchecked);
                 n += plain_case::<&'static u32, N>(prop, "&u32", &layout, &keys, &|c, t| &PLAIN_CELLS[t as usize % 3][c as usize], unchecked);
+                n += path_case::<N>(prop, &layout, &keys, unchecked);
                 self.cx.rep.evaluations += n;
                 self.cx.rep.hit("plain-keys");
             }
